@@ -33,7 +33,8 @@ Prepared(h, l, t) == [k |-> "prepared", last |-> l, h |-> h, tx |-> t]
 Torn == [k |-> "torn", last |-> 0, h |-> 0, tx |-> 0]
 
 VARIABLES file,      \* the submission state file
-          cel,       \* [Tx -> [lo, hi, st]]: st in "none" (not created / never reached Celestia), "pending", "confirmed", "lost"
+          cel,       \* [Tx -> [lo, hi, st]]: st in "none" (not created / never reached Celestia), "pending", "confirmed", "lost",
+                     \* "failed" (included in a Celestia block but its execution failed: the blobs are not there)
           up,        \* the relayer process is running
           mode,      \* where the submitter is: "boot" | "confirmPrev" | "idle" | "preparing" | "prepared" | "confirming" |
                      \*   "confirmFailed" (after a broadcast timeout)
@@ -123,6 +124,9 @@ Include(t) == /\ cel[t].st = "pending" /\ cel' = [cel EXCEPT ![t].st = "confirme
               /\ UNCHANGED <<file, up, mode, last, skipTo, cur, ntx, ncrash>>
 Evict(t) == /\ cel[t].st = "pending" /\ cel' = [cel EXCEPT ![t].st = "lost"]
             /\ UNCHANGED <<file, up, mode, last, skipTo, cur, ntx, ncrash>>
+\* included, but the transaction failed (out of gas, ...): GetTx reports a height together with an error code
+IncludeFailed(t) == /\ cel[t].st = "pending" /\ cel' = [cel EXCEPT ![t].st = "failed"]
+                    /\ UNCHANGED <<file, up, mode, last, skipTo, cur, ntx, ncrash>>
 
 \* ---- the process is stopped; memory is gone
 Crash ==
@@ -143,7 +147,7 @@ Next == Boot \/ ConfirmPrevConfirmed \/ ConfirmPrevTimeout \/ (\E t \in Tx : Wri
         \/ Crash \/ CrashDuringWrite
         \/ (\E hi \in 1..MaxH : TakeBatch(hi))
         \/ (\E d \in BOOLEAN, told \in {"ok", "error", "timeout"} : Broadcast(d, told))
-        \/ (\E t \in Tx : Include(t) \/ Evict(t))
+        \/ (\E t \in Tx : Include(t) \/ Evict(t) \/ IncludeFailed(t))
 Spec == Init /\ [][Next]_vars
 
 -----------------------------------------------------------------------------
